@@ -136,7 +136,7 @@ Section Exec.
         end
       end in
     match st with
-    | SCall _ g args =>
+    | SCall _ _ g args =>
       match bind_args (fn_params g) 0 (map (eval_expr en) args) [] with
       | Some pv => plain_call g pv
       | None => (inl (LowErr "TypeError"), s)
@@ -147,7 +147,7 @@ Section Exec.
       | None => (inl (LowErr "TypeError"), s)
       end
     | SRef _ _ false => (inr en, s)
-    | SKeep _ p g pos kw =>
+    | SKeep _ _ p g pos kw =>
       match bind_args (fn_params g) 0 (map (fun ea => eval_expr en (fst ea)) pos)
                       (map (fun nk => (fst nk, eval_expr en (fst (snd nk)))) kw) with
       | Some pv => kept_call g p pv
@@ -205,7 +205,7 @@ with all_loads_steps (s : steps) : list bytes :=
 with all_loads_step (s : step) : list bytes :=
   match s with
   | SLoad p => [p]
-  | SCall _ g _ | SRef _ g _ | SKeep _ _ g _ _ => all_loads_fn g
+  | SCall _ _ g _ | SRef _ g _ | SKeep _ _ _ g _ _ => all_loads_fn g
   | SApply _ => []
   end.
 
@@ -220,8 +220,8 @@ with all_stores_steps (s : steps) : list bytes :=
 with all_stores_step (s : step) : list bytes :=
   match s with
   | SLoad _ | SApply _ => []
-  | SCall _ g _ | SRef _ g _ => all_stores_fn g
-  | SKeep _ p g _ _ => p :: (match g with Fn _ _ _ _ _ _ _ bds => all_stores_bodies bds end)
+  | SCall _ _ g _ | SRef _ g _ => all_stores_fn g
+  | SKeep _ _ p g _ _ => p :: (match g with Fn _ _ _ _ _ _ _ bds => all_stores_bodies bds end)
   end.
 
 Inductive style := StEval | StKeep (path : bytes) | StDirect.
